@@ -136,6 +136,33 @@ func init() {
 		copyRules(p, r, func(p *Program, r *Report) { checkCompactionTables(p, r, false, true) }, "COMPACT-RAW", "DT-TOMB-REF", "COMPACT-KEEP", "COMPACT-RANGE", "COMPACT-LIMITS")
 		r.Engines = append(r.Engines, "sibling")
 	}
+	base08 := checks["C08"]
+	checks["C08"] = func(p *Program, r *Report) {
+		base08(p, r)
+		// "a handle that fails to acquire a lock never deletes it" holds for every
+		// way the acquisition can fail: second pass with a third outcome of the
+		// exclusive create (an error other than EEXIST), lock-ownership rule only
+		rules := newFsRules()
+		c := newFsClient(p, rules)
+		c.lockFaults = true
+		var runs []fsRun
+		for _, fn := range fsEntryPoints(p) {
+			if funcKey(fn) == "(*Stack).Add" {
+				continue // Add = NewAddition protocol + AutoCompact, both analysed on their own
+			}
+			c.runEntry(fn, &runs)
+		}
+		c.runProtocol(&runs)
+		n := 0
+		for k, v := range rules.viol {
+			n++
+			r.violate("LOCK-OWN", strings.TrimPrefix(k, "LOCK-OWN / "), v.Where, v.Message, v.Witness)
+		}
+		if n == 0 {
+			r.ok("LOCK-OWN", "all operations / a create that fails with an error other than EEXIST removes nothing", "no lock path is removed or renamed on a path on which its exclusive create failed for another reason")
+		}
+		r.Stats["lock_fault_pass.paths"] = len(runs)
+	}
 	base16 := checks["C16"]
 	checks["C16"] = func(p *Program, r *Report) {
 		base16(p, r)
